@@ -67,7 +67,7 @@ func refDataAttr(a string) bool {
 	return ok
 }
 
-var c04Rels = []string{"", " stylesheet ", " icon ", " alternate stylesheet ", " nofollow noopener ", " preload stylesheet icon "}
+var c04Rels = []string{"", " stylesheet ", " icon ", " alternate stylesheet ", " nofollow noopener ", " preload stylesheet icon ", " modulepreload ", " x-prefetch ", " apple-touch-icon ", " iconx ", " xicon "}
 
 func refRelHasURLVal(rel string) bool {
 	// rel is concrete and already normalised: tokens separated by single spaces
